@@ -187,6 +187,254 @@ def inline_adjacent_temps(tree):
     return tree
 
 
+def unroll_literal_loops(tree):
+    """Third normalisation: a `for` loop over a short LITERAL tuple of constants (optionally tuples of constants / plain names, optionally through
+    enumerate(..., start=k) or zip of literals) whose body addresses attributes by computed name (getattr / setattr / hasattr with the loop variable)
+    is replaced by its unrolled copies, with the loop variable substituted, constant strings folded and getattr(x, "a") / setattr(x, "a", v) turned
+    into x.a / x.a = v.  This is how "one loop over the kinds" refactorings of per-kind blocks look to the rules like the blocks they replace.  Loops
+    with break, with a continue that is not a top-level `if c: continue`, with an else clause, or that assign their own loop variable are left alone."""
+    import copy
+
+    def lit_elems(e):
+        if isinstance(e, (ast.Tuple, ast.List)) and 1 <= len(e.elts) <= 6:
+            out = []
+            for x in e.elts:
+                if isinstance(x, ast.Constant):
+                    out.append(x)
+                elif isinstance(x, (ast.Tuple, ast.List)) and all(_simple(y) for y in x.elts):
+                    out.append(x)
+                elif _simple(x):
+                    out.append(x)
+                else:
+                    return None
+            return out
+        return None
+
+    def _simple(y):
+        if isinstance(y, (ast.Constant, ast.Name)):
+            return True
+        if isinstance(y, ast.Attribute):
+            return _simple(y.value)
+        return False
+
+    def iter_items(it):
+        """list of element expressions the loop target is bound to, or None"""
+        direct = lit_elems(it)
+        if direct is not None:
+            return direct
+        if isinstance(it, ast.Call) and isinstance(it.func, ast.Name) and it.func.id == "enumerate" and it.args:
+            inner = lit_elems(it.args[0])
+            start = 0
+            if len(it.args) > 1 and isinstance(it.args[1], ast.Constant) and isinstance(it.args[1].value, int):
+                start = it.args[1].value
+            for k in it.keywords:
+                if k.arg == "start" and isinstance(k.value, ast.Constant) and isinstance(k.value.value, int):
+                    start = k.value.value
+                elif k.arg == "start":
+                    return None
+            if inner is None:
+                return None
+            return [ast.Tuple(elts=[ast.Constant(start + i), x], ctx=ast.Load()) for i, x in enumerate(inner)]
+        if isinstance(it, ast.Call) and isinstance(it.func, ast.Name) and it.func.id == "zip" and it.args and not it.keywords:
+            cols = [lit_elems(a) for a in it.args]
+            if any(c is None for c in cols) or len({len(c) for c in cols}) != 1:
+                return None
+            return [ast.Tuple(elts=[c[i] for c in cols], ctx=ast.Load()) for i in range(len(cols[0]))]
+        return None
+
+    def target_names(t):
+        if isinstance(t, ast.Name):
+            return [t.id]
+        if isinstance(t, (ast.Tuple, ast.List)):
+            out = []
+            for x in t.elts:
+                r = target_names(x)
+                if r is None:
+                    return None
+                out += r
+            return out
+        return None
+
+    def bind(t, v, env):
+        if isinstance(t, ast.Name):
+            env[t.id] = v
+            return True
+        if isinstance(t, (ast.Tuple, ast.List)) and isinstance(v, (ast.Tuple, ast.List)) and len(t.elts) == len(v.elts):
+            return all(bind(a, b, env) for a, b in zip(t.elts, v.elts))
+        return False
+
+    def uses_computed_attr(body, names):
+        names = set(names)
+        # locals computed from the loop variable count as derived names
+        changed = True
+        while changed:
+            changed = False
+            for st in body:
+                for a_ in ast.walk(st):
+                    if isinstance(a_, ast.Assign) and any(isinstance(y, ast.Name) and y.id in names for y in ast.walk(a_.value)):
+                        for t_ in a_.targets:
+                            for y in ast.walk(t_):
+                                if isinstance(y, ast.Name) and y.id not in names:
+                                    names.add(y.id)
+                                    changed = True
+        for st in body:
+            for c in ast.walk(st):
+                if isinstance(c, ast.Call) and isinstance(c.func, ast.Name) and c.func.id in ("getattr", "setattr", "hasattr") and len(c.args) >= 2 \
+                        and any(isinstance(y, ast.Name) and y.id in names for y in ast.walk(c.args[1])):
+                    return True
+        return False
+
+    def loop_level(body, kinds):
+        """break / continue statements that belong to THIS loop (not to nested loops)"""
+        out = []
+        stack = list(body)
+        while stack:
+            n = stack.pop()
+            if isinstance(n, kinds):
+                out.append(n)
+            if isinstance(n, (ast.For, ast.While, ast.FunctionDef, ast.AsyncFunctionDef, ast.ClassDef, ast.Lambda)):
+                continue
+            stack.extend(ast.iter_child_nodes(n))
+        return out
+
+    class Subst(ast.NodeTransformer):
+        def __init__(self, env):
+            self.env = env
+
+        def visit_Name(self, n):
+            if isinstance(n.ctx, ast.Load) and n.id in self.env:
+                return ast.copy_location(copy.deepcopy(self.env[n.id]), n)
+            return n
+
+    class Fold(ast.NodeTransformer):
+        def visit_BinOp(self, n):
+            self.generic_visit(n)
+            l, r = n.left, n.right
+            if isinstance(n.op, ast.Add) and isinstance(l, ast.Constant) and isinstance(r, ast.Constant) and isinstance(l.value, str) and isinstance(r.value, str):
+                return ast.copy_location(ast.Constant(l.value + r.value), n)
+            if isinstance(n.op, ast.Mod) and isinstance(l, ast.Constant) and isinstance(l.value, str):
+                args = None
+                if isinstance(r, ast.Constant):
+                    args = r.value
+                elif isinstance(r, ast.Tuple) and all(isinstance(x, ast.Constant) for x in r.elts):
+                    args = tuple(x.value for x in r.elts)
+                if args is not None:
+                    try:
+                        return ast.copy_location(ast.Constant(l.value % args), n)
+                    except Exception:
+                        return n
+            return n
+
+        def visit_JoinedStr(self, n):
+            self.generic_visit(n)
+            parts = []
+            for v in n.values:
+                if isinstance(v, ast.Constant) and isinstance(v.value, str):
+                    parts.append(v.value)
+                elif isinstance(v, ast.FormattedValue) and isinstance(v.value, ast.Constant) and v.conversion == -1 and v.format_spec is None:
+                    parts.append(str(v.value.value))
+                else:
+                    return n
+            return ast.copy_location(ast.Constant("".join(parts)), n)
+
+        def visit_Call(self, n):
+            self.generic_visit(n)
+            if isinstance(n.func, ast.Name) and n.func.id == "getattr" and len(n.args) == 2 and not n.keywords and isinstance(n.args[1], ast.Constant) \
+                    and isinstance(n.args[1].value, str) and n.args[1].value.isidentifier():
+                return ast.copy_location(ast.Attribute(value=n.args[0], attr=n.args[1].value, ctx=ast.Load()), n)
+            return n
+
+        def visit_Expr(self, n):
+            self.generic_visit(n)
+            c = n.value
+            if isinstance(c, ast.Call) and isinstance(c.func, ast.Name) and c.func.id == "setattr" and len(c.args) == 3 and not c.keywords \
+                    and isinstance(c.args[1], ast.Constant) and isinstance(c.args[1].value, str) and c.args[1].value.isidentifier():
+                tgt = ast.Attribute(value=c.args[0], attr=c.args[1].value, ctx=ast.Store())
+                return ast.copy_location(ast.Assign(targets=[tgt], value=c.args[2], lineno=n.lineno), n)
+            return n
+
+    def try_unroll(loop):
+        if not isinstance(loop, ast.For) or loop.orelse:
+            return None
+        items = iter_items(loop.iter)
+        names = target_names(loop.target)
+        if items is None or names is None:
+            return None
+        if not uses_computed_attr(loop.body, set(names)):
+            return None
+        if loop_level(loop.body, (ast.Break,)):
+            return None
+        if any(isinstance(x, ast.Name) and isinstance(x.ctx, (ast.Store, ast.Del)) and x.id in names for st in loop.body for x in ast.walk(st)):
+            return None
+        conts = loop_level(loop.body, (ast.Continue,))
+        guards = 0
+        for st in loop.body:
+            if isinstance(st, ast.If) and not st.orelse and len(st.body) == 1 and isinstance(st.body[0], ast.Continue):
+                guards += 1
+        if len(conts) != guards:
+            return None
+        out = []
+        for item in items:
+            env = {}
+            if not bind(loop.target, item, env):
+                return None
+            body = [copy.deepcopy(st) for st in loop.body]
+            body = [Fold().visit(Subst(env).visit(st)) for st in body]
+            # constant propagation inside the copy: a local bound exactly once (in the whole copy) to a string constant is replaced by it
+            for _round in range(3):
+                stores = {}
+                for st in body:
+                    for y in ast.walk(st):
+                        if isinstance(y, ast.Name) and isinstance(y.ctx, (ast.Store, ast.Del)):
+                            stores[y.id] = stores.get(y.id, 0) + 1
+                cenv = {}
+                for st in body:
+                    if isinstance(st, ast.Assign) and len(st.targets) == 1:
+                        t_, v_ = st.targets[0], st.value
+                        if isinstance(t_, ast.Name) and isinstance(v_, ast.Constant) and isinstance(v_.value, str) and stores.get(t_.id) == 1:
+                            cenv[t_.id] = v_
+                        elif isinstance(t_, (ast.Tuple, ast.List)) and isinstance(v_, (ast.Tuple, ast.List)) and len(t_.elts) == len(v_.elts):
+                            for a_, b_ in zip(t_.elts, v_.elts):
+                                if isinstance(a_, ast.Name) and isinstance(b_, ast.Constant) and isinstance(b_.value, str) and stores.get(a_.id) == 1:
+                                    cenv[a_.id] = b_
+                if not cenv:
+                    break
+                body = [Fold().visit(Subst(cenv).visit(st)) for st in body]
+            # `if c: continue` at the top level of the body: the rest of this copy runs under `not c`
+            def nest(stmts):
+                for i, st in enumerate(stmts):
+                    if isinstance(st, ast.If) and not st.orelse and len(st.body) == 1 and isinstance(st.body[0], ast.Continue):
+                        rest = nest(stmts[i + 1:])
+                        if not rest:
+                            return stmts[:i]
+                        neg = ast.UnaryOp(op=ast.Not(), operand=st.test)
+                        return stmts[:i] + [ast.copy_location(ast.If(test=neg, body=rest, orelse=[]), st)]
+                return stmts
+            out.extend(nest(body))
+        return out
+
+    def process(stmts):
+        i = 0
+        while i < len(stmts):
+            st = stmts[i]
+            for fld in ("body", "orelse", "finalbody"):
+                sub = getattr(st, fld, None)
+                if isinstance(sub, list) and sub and isinstance(sub[0], ast.stmt):
+                    process(sub)
+            for h in getattr(st, "handlers", []) or []:
+                process(h.body)
+            rep = try_unroll(st)
+            if rep is not None and rep:
+                process(rep)            # the copies may contain loops that have become literal only now
+                stmts[i:i + 1] = rep
+                i += len(rep)
+            else:
+                i += 1
+    process(tree.body)
+    ast.fix_missing_locations(tree)
+    return tree
+
+
 def canonical_tests(tree):
     """Second normalisation applied to every module: tests are brought to one spelling so that no rule depends on it.
     `not (x is None)` -> `x is not None` (and is not / in / not in likewise); an ordered comparison with a numeric literal on the
@@ -230,7 +478,7 @@ class Module:
         self.path = path
         self.relpath = relpath
         self.src = src
-        self.tree = canonical_tests(inline_adjacent_temps(ast.parse(src, filename=path)))
+        self.tree = canonical_tests(inline_adjacent_temps(unroll_literal_loops(ast.parse(src, filename=path))))
         self.imports = {}      # local name -> (module, attr or None)
         self.star_imports = []
         self._scan_imports()
